@@ -128,3 +128,53 @@ static size_t ERASE_IF_SHRINK(struct CMap *m, struct closure_Node__shrink_1 pred
   return n - nl;
 }
 #endif
+
+/* ---- construction / destruction of the map and the subject pointer (lookupNode, Node(name), ~Node) ---- */
+static void CMap__ctor_default(struct CMap *m) { m->len = 0; m->g_clive = 0; m->g_live = 0; m->g_win = 0; m->g_isw = 0; m->g_whit = 0; m->g_cnt = 0; m->g_ex = 0; m->g_depth = 1; }
+static void CMap__ctor_move(struct CMap *m, struct CMap *o) { *m = *o; o->len = 0; }
+static void CMap__dtor(struct CMap *m) { }
+static void SPtr__ctor_move(struct SPtr *p, struct SPtr *o) { p->p = o->p; o->p = 0; }
+static void SPtr__dtor(struct SPtr *p) { __CPROVER_assert(p->p == 0, "MODEL-LIMIT destruction of a node that owns a subject is not modelled"); }
+static void SPtr__reset(struct SPtr *p, struct Subj0 *s) { __CPROVER_assert(p->p == 0, "MODEL-LIMIT reset of a unique_ptr that owns a subject is not modelled"); p->p = s; }
+#ifdef MAP_TRACKED
+/* std::pair<const std::string, Node>(name, Node&&): the node is move-constructed into the pair (real lowered Node move
+ * constructor), which lives in the scratch object until insert() takes it */
+static void CEnt__ctor__Str_ref_Node_rref(struct CEnt *e, struct Str *name, struct Node *n) {
+  Str__ctor_copy(&e->first, name);
+  Node__ctor_move(g_scr, n);
+  e->kid = g_scr;
+}
+/* std::map::insert(value): if the key is present nothing changes and the iterator points at the existing entry; otherwise
+ * the entry is inserted at its sorted position (all other entries keep their node objects).  The tracked entry is the one
+ * with this key: g_tx is its index (FIND_FACTS: g_fidx is the index of the child named g_fkey, or len when absent). */
+static void CMap__insert(struct CMap *m, struct CEnt *val, struct CIns *r) {
+  __CPROVER_assert(val->first.id == m->g_fkey, "MODEL-LIMIT insert is modelled for the key the harness tracks");
+  r->first.m = m;
+  if (m->g_fidx < m->len) { r->first.pos = m->g_fidx; r->second = 0; g_inserted = 0; return; }
+  size_t p = nondet_size(); __CPROVER_assume(p <= m->len);
+  m->len = m->len + 1;
+  __CPROVER_havoc_object(m->keys);
+  m->keys[p] = val->first.id;
+  Node__ctor_move(g_trk, val->kid);                 /* the mapped node is move-constructed from the value */
+  g_trk->m_children.g_lvl = m->g_lvl + 1;           /* ghost: a child is one level deeper */
+  g_tx = p; m->g_fidx = p;
+  r->first.pos = p; r->second = 1; g_inserted = 1;
+}
+#endif
+/* ---- Subject<...> as seen from Node::subscribe: creation fixes the signature, subscribe must use it ---- */
+void Subj0__ctor_default(struct Subj0 *s) { s->c.sig = SIG_VOID; s->c.has_subs = 0; s->c.is_w = 0; g_subj_created++; }
+void SubjI__ctor_default(struct SubjI *s) { s->c.sig = SIG_INT; s->c.has_subs = 0; s->c.is_w = 0; g_subj_created++; }
+static void subj_subscribed(struct SubjCore *c, int sig) {
+  __CPROVER_assert(c->sig == sig, "C06 an observer is subscribed to a subject through the argument signature the subject was created with");
+  c->has_subs = 1; g_sub_calls++; g_sub_on = c;
+}
+void Subj0__subscribe(struct Subj0 *s, struct OAuto0 *o, struct Subn0 *r) { subj_subscribed(&s->c, SIG_VOID); r->m_subject = s; r->m_observer = o->m_ptr.p; r->m_id = 0; }
+void SubjI__subscribe(struct SubjI *s, struct OAutoI *o, struct SubnI *r) { subj_subscribed(&s->c, SIG_INT); r->m_subject = s; r->m_observer = o->m_ptr.p; r->m_id = 0; }
+static void OPtr0__ctor_move(struct OPtr0 *p, struct OPtr0 *o) { p->p = o->p; o->p = 0; }
+static void OPtrI__ctor_move(struct OPtrI *p, struct OPtrI *o) { p->p = o->p; o->p = 0; }
+static void OPtr0__dtor(struct OPtr0 *p) { }
+static void OPtrI__dtor(struct OPtrI *p) { }
+static void OAuto0__ctor__std_unique_ptr_Observer(struct OAuto0 *a, struct OPtr0 *o) { a->m_ptr.p = o->p; o->p = 0; }
+static void OAutoI__ctor__std_unique_ptr_Observer_int(struct OAutoI *a, struct OPtrI *o) { a->m_ptr.p = o->p; o->p = 0; }
+static void OAuto0__dtor(struct OAuto0 *a) { }
+static void OAutoI__dtor(struct OAutoI *a) { }
